@@ -19,12 +19,25 @@ import (
 // merge keys; TOML dotted keys and inline tables. The caller verifies with
 // the independent decoder that the text means the intended tree.
 func EncodeStyled(ext string, docs []tv.T, style string) ([]byte, error) {
+	if style == "crlf" {
+		// the same text with Windows line endings
+		b, err := Encode(ext, docs)
+		if err != nil {
+			return nil, err
+		}
+		return bytes.ReplaceAll(b, []byte("\n"), []byte("\r\n")), nil
+	}
 	switch ext {
 	case "yaml", "yml":
 		var buf bytes.Buffer
 		for i, d := range docs {
 			if i > 0 {
-				buf.WriteString("---\n")
+				if style == "sepcomment" {
+					// a document start marker may carry a comment (or trailing blanks)
+					buf.WriteString([]string{"--- # next document\n", "--- \n", "---\t# x\n"}[i%3])
+				} else {
+					buf.WriteString("---\n")
+				}
 			}
 			n := &yaml.Node{}
 			if err := n.Encode(tv.ToGo(d)); err != nil {
